@@ -303,7 +303,13 @@ impl Opts {
 		}
 		while let Some(global_arg) = args.next() {
 			match global_arg.as_str() {
-				"-n" | "--next" => then_cmds.push(Cmd::BreakGroup),
+				"-n" | "--next" => {
+					if let Some(else_cmds) = else_cmds.as_mut() {
+						else_cmds.push(Cmd::BreakGroup);
+					} else {
+						then_cmds.push(Cmd::BreakGroup);
+					}
+				}
 				"-r" | "--repeat" => {
 					let cmd_count = args
 						.next()
